@@ -1477,6 +1477,171 @@ def method_table(tree: ast.Module) -> list[tuple[str, str]]:
     return [(cls, f.name) for cls, fns in _class_functions(tree).items() for f in fns]
 
 
+# ---------------------------------------------------------------------------------------------- __format__ with a spec
+class _SpecUnk(Exception):
+    pass
+
+
+def format_spec_cfgs(tree: ast.Module) -> dict:
+    """VecBase.__format__ / AngleBase.__format__ evaluated symbolically into, per component, a text term
+         fmt(slot, +0.0?) | rstrip(chars, T) | if(conds, T, T) | lit
+    (locals substituted, `if c: x = f(x)` read as a conditional, conditional expressions alike) and then classified into the
+    flags of Num/SpecStrip.v spec_cfg.  All three components must be the family's slots in order with the same flags,
+    joined by single spaces; an empty spec must return str(self).  Anything else: recognised = false, all flags off."""
+    out: dict = {}
+    off = {'guard_dot': False, 'guard_no_exp': False, 'strip_zeros': False, 'strip_dot': False, 'dot_outside': False, 'neg_zero_fix': False}
+    for cname, fam in (('VecBase', FAMILY_SLOTS['VecBase']), ('AngleBase', FAMILY_SLOTS['AngleBase'])):
+        key = 'vec' if cname == 'VecBase' else 'angle'
+        cdef = next((c for c in tree.body if isinstance(c, ast.ClassDef) and c.name == cname), None)
+        fn = next((f for f in (cdef.body if cdef else []) if isinstance(f, ast.FunctionDef) and f.name == '__format__'), None)
+        res = dict(off, recognised=False, empty_is_str=False, adds_zero=False, why='')
+        out[key] = res
+        if fn is None or len(fn.args.args) != 2:
+            res['why'] = '__format__ not found'
+            continue
+        me, spec = fn.args.args[0].arg, fn.args.args[1].arg
+
+        def cond(t: ast.AST, env: dict) -> frozenset:
+            if isinstance(t, ast.BoolOp) and isinstance(t.op, ast.And):
+                return frozenset().union(*[cond(v, env) for v in t.values])
+            if isinstance(t, ast.Compare) and len(t.ops) == 1 and isinstance(t.left, ast.Constant) and isinstance(t.left.value, str) \
+                    and isinstance(t.ops[0], (ast.In, ast.NotIn)):
+                return frozenset([('in' if isinstance(t.ops[0], ast.In) else 'notin', t.left.value, text(t.comparators[0], env))])
+            if isinstance(t, ast.Compare) and len(t.ops) == 1 and isinstance(t.ops[0], ast.Eq) and isinstance(t.comparators[0], ast.Constant):
+                return frozenset([('eq', t.comparators[0].value, text(t.left, env))])
+            if isinstance(t, ast.UnaryOp) and isinstance(t.op, ast.Not) and isinstance(t.operand, ast.BoolOp) and isinstance(t.operand.op, ast.Or):
+                # not (a or b)  ==  (not a) and (not b)
+                return frozenset().union(*[cond(ast.UnaryOp(op=ast.Not(), operand=v, lineno=t.lineno), env) for v in t.operand.values])
+            if isinstance(t, ast.UnaryOp) and isinstance(t.op, ast.Not):
+                inner = cond(t.operand, env)
+                if len(inner) == 1:
+                    (k, ch, x), = inner
+                    if k in ('in', 'notin'):
+                        return frozenset([('notin' if k == 'in' else 'in', ch, x)])
+            raise _SpecUnk(f'condition not understood (line {t.lineno})')
+
+        def text(e: ast.AST, env: dict):
+            if isinstance(e, ast.Name) and e.id in env:
+                return env[e.id]
+            if isinstance(e, ast.Constant) and isinstance(e.value, str):
+                return ('lit', e.value)
+            if isinstance(e, ast.IfExp):
+                return ('if', cond(e.test, env), text(e.body, env), text(e.orelse, env))
+            if isinstance(e, ast.Call) and isinstance(e.func, ast.Attribute) and e.func.attr == 'rstrip' and len(e.args) == 1 \
+                    and not e.keywords and isinstance(e.args[0], ast.Constant) and isinstance(e.args[0].value, str):
+                return ('rstrip', e.args[0].value, text(e.func.value, env))
+            if isinstance(e, ast.Call) and isinstance(e.func, ast.Name) and e.func.id == 'format' and len(e.args) == 2 and not e.keywords \
+                    and isinstance(e.args[1], ast.Name) and e.args[1].id == spec:
+                v = e.args[0]
+                az = False
+                if isinstance(v, ast.BinOp) and isinstance(v.op, ast.Add):
+                    zero = lambda z: isinstance(z, ast.Constant) and type(z.value) is float and z.value == 0.0
+                    if zero(v.right):
+                        v, az = v.left, True
+                    elif zero(v.left):
+                        v, az = v.right, True
+                if isinstance(v, ast.Attribute) and isinstance(v.value, ast.Name) and v.value.id == me and v.attr in fam:
+                    return ('fmt', v.attr, az)
+            raise _SpecUnk(f'text expression not understood (line {e.lineno})')
+
+        def block(stmts: list[ast.stmt], env: dict) -> dict:
+            env = dict(env)
+            for st in _nodoc(stmts):
+                if isinstance(st, ast.Assign) and len(st.targets) == 1 and isinstance(st.targets[0], ast.Name):
+                    env[st.targets[0].id] = text(st.value, env)
+                elif isinstance(st, ast.If):
+                    c = cond(st.test, env)
+                    a, b = block(st.body, env), block(st.orelse, env)
+                    for nm in set(a) | set(b):
+                        if a.get(nm) != b.get(nm):
+                            if nm not in a or nm not in b:
+                                raise _SpecUnk('a name bound on one branch only')
+                            env[nm] = ('if', c, a[nm], b[nm])
+                else:
+                    raise _SpecUnk(f'statement not understood (line {st.lineno})')
+            return env
+
+        def classify(t) -> dict:
+            f = dict(off)
+            if t[0] == 'if' and t[1] == frozenset([('eq', '-0', t[3])]) and t[2] == ('lit', '0'):
+                f['neg_zero_fix'] = True
+                t = t[3]
+            if t[0] == 'rstrip' and t[1] == '.' and t[2][0] == 'if':
+                f['dot_outside'] = True
+                t = t[2]
+            base = t
+            if t[0] == 'if':
+                conds, a, base = t[1], t[2], t[3]
+                if base[0] != 'fmt':
+                    raise _SpecUnk('the untouched branch is not the formatted component')
+                chain = []
+                while a[0] == 'rstrip':
+                    chain.append(a[1])
+                    a = a[2]
+                if a != base:
+                    raise _SpecUnk('the stripped branch does not start from the formatted component')
+                chain.reverse()                      # order of application
+                if chain == ['0', '.']:
+                    f['strip_zeros'] = f['strip_dot'] = True
+                elif chain == ['0']:
+                    f['strip_zeros'] = True
+                elif chain:
+                    raise _SpecUnk(f'strip chain {chain!r}')
+                atoms = set(conds)
+                if any(x != base for _, _, x in atoms):
+                    raise _SpecUnk('a guard looks at another text')
+                kinds = {(k, ch) for k, ch, _ in atoms}
+                if ('in', '.') in kinds:
+                    f['guard_dot'] = True
+                if ('notin', 'e') in kinds and ('notin', 'E') in kinds:
+                    f['guard_no_exp'] = True
+                if kinds - {('in', '.'), ('notin', 'e'), ('notin', 'E')}:
+                    raise _SpecUnk(f'guard atoms {sorted(kinds)!r}')
+            elif t[0] != 'fmt':
+                raise _SpecUnk('component is not the formatted slot')
+            f['slot'], f['adds_zero'] = base[1], base[2]
+            return f
+
+        try:
+            body = _nodoc(fn.body)
+            # `if not spec: return str(self)`
+            if body and isinstance(body[0], ast.If) and not body[0].orelse and len(body[0].body) == 1 and isinstance(body[0].body[0], ast.Return):
+                t, r = body[0].test, body[0].body[0].value
+                empty = (isinstance(t, ast.UnaryOp) and isinstance(t.op, ast.Not) and isinstance(t.operand, ast.Name) and t.operand.id == spec) or \
+                    (isinstance(t, ast.Compare) and len(t.ops) == 1 and isinstance(t.ops[0], ast.Eq) and isinstance(t.left, ast.Name) and t.left.id == spec
+                     and isinstance(t.comparators[0], ast.Constant) and t.comparators[0].value == '')
+                is_str = isinstance(r, ast.Call) and not r.keywords and (
+                    (isinstance(r.func, ast.Name) and r.func.id == 'str' and len(r.args) == 1 and isinstance(r.args[0], ast.Name) and r.args[0].id == me) or
+                    (isinstance(r.func, ast.Attribute) and r.func.attr == '__str__' and isinstance(r.func.value, ast.Name) and r.func.value.id == me and not r.args))
+                if empty and is_str:
+                    res['empty_is_str'] = True
+                    body = body[1:]
+            if not body or not isinstance(body[-1], ast.Return) or not isinstance(body[-1].value, ast.JoinedStr):
+                raise _SpecUnk('no f-string returned')
+            env = block(body[:-1], {})
+            parts = []
+            for v in body[-1].value.values:
+                if isinstance(v, ast.Constant):
+                    parts.append(('sep', v.value))
+                elif isinstance(v, ast.FormattedValue) and v.conversion == -1 and v.format_spec is None:
+                    parts.append(('comp', classify(text(v.value, env))))
+                else:
+                    raise _SpecUnk('f-string part not understood')
+            if [p[0] for p in parts] != ['comp', 'sep', 'comp', 'sep', 'comp'] or any(p[1] != ' ' for p in parts if p[0] == 'sep'):
+                raise _SpecUnk('not three components joined by single spaces')
+            comps = [p[1] for p in parts if p[0] == 'comp']
+            if tuple(c['slot'] for c in comps) != tuple(fam):
+                raise _SpecUnk('components are not the three slots in order')
+            flags = [{k: v for k, v in c.items() if k != 'slot'} for c in comps]
+            if flags[0] != flags[1] or flags[1] != flags[2]:
+                raise _SpecUnk('the three components are treated differently')
+            res.update(flags[0])
+            res['recognised'] = True
+        except _SpecUnk as e:
+            res['why'] = str(e)
+    return out
+
+
 # ---------------------------------------------------------------------------------------------- __hash__
 _PURE_HASH_BUILTINS = {'hash', 'round', 'tuple', 'abs', 'float', 'int'}
 
@@ -2251,6 +2416,7 @@ def translate() -> tuple[str, dict]:
     info.update(sinfo)
     hashes, hinfo = hash_kinds(tree)
     inplace = inplace_methods(tree)
+    specs = format_spec_cfgs(tree)
     info.update(hinfo)
     # __str__: three numbers separated by single spaces
     def plain3(p, sep, fam, pre='', post=''):
@@ -2266,7 +2432,7 @@ def translate() -> tuple[str, dict]:
     lines = [
         '(* GENERATED by translate/c05_sites.py from src/srctools/math.py. Do not edit. *)',
         'From Coq Require Import ZArith NArith List String.',
-        'From SV Require Import Num.Dec6 Num.AngleSites Num.AngleCtor Num.VecText SM.FrozenOps SM.FrozenCopy SM.FrozenCopyValue SM.FrozenHash.',
+        'From SV Require Import Num.Dec6 Num.AngleSites Num.AngleCtor Num.SpecStrip Num.VecText SM.FrozenOps SM.FrozenCopy SM.FrozenCopyValue SM.FrozenHash.',
         'Import ListNotations.', 'Open Scope string_scope.',
         '(* every store to an _pitch/_yaw/_roll slot: (file:Class.function:slot, classification of the stored value) *)',
         'Definition angle_sites : list (string * rhs) := [',
@@ -2311,6 +2477,14 @@ def translate() -> tuple[str, dict]:
         'Definition hash_kinds : list hash_row := [',
         ';\n'.join(f'  ({_s(c)}, {k})' for c, k in hashes),
         '].',
+        '(* __format__ with a user spec: what happens to each component after format(value, spec) *)',
+        f'Definition format_spec_recognised : bool := {b(specs["vec"]["recognised"] and specs["angle"]["recognised"])}.',
+        f'Definition format_spec_empty_is_str : bool := {b(specs["vec"]["empty_is_str"] and specs["angle"]["empty_is_str"])}.',
+    ] + [
+        f'Definition {k}_spec_cfg : spec_cfg := {{| guard_dot := {b(c["guard_dot"])}; guard_no_exp := {b(c["guard_no_exp"])}; strip_zeros := {b(c["strip_zeros"])}; '
+        f'strip_dot := {b(c["strip_dot"])}; dot_outside := {b(c["dot_outside"])}; spec_neg_zero_fix := {b(c["neg_zero_fix"])} |}}.'
+        for k, c in (('vec', specs['vec']), ('angle', specs['angle']))
+    ] + [
         '(* every in-place operator method: (defining class, name) *)',
         'Definition inplace_rows : list inplace_row := [',
         ';\n'.join(f'  ({_s(c)}, {_s(m)})' for c, m in inplace),
@@ -2321,7 +2495,7 @@ def translate() -> tuple[str, dict]:
         '].',
         '',
     ]
-    side = {'inplace_rows': [list(r) for r in inplace], 'hash_kinds': [list(h) for h in hashes], 'angle_ctor_rows': [list(r) for r in ctor_rows], 'fresh_by_name': [list(x) for x in fresh], 'copy_shapes': [list(x) for x in shapes], 'angle_sites': [list(s) for s in sites], 'angle_creations': [list(c) for c in creations], 'format_float': cfg, 'parse_vec_str': pcfg, 'str_templates': strs,
+    side = {'format_spec': specs, 'inplace_rows': [list(r) for r in inplace], 'hash_kinds': [list(h) for h in hashes], 'angle_ctor_rows': [list(r) for r in ctor_rows], 'fresh_by_name': [list(x) for x in fresh], 'copy_shapes': [list(x) for x in shapes], 'angle_sites': [list(s) for s in sites], 'angle_creations': [list(c) for c in creations], 'format_float': cfg, 'parse_vec_str': pcfg, 'str_templates': strs,
             'mut_events': [list(m) for m in muts], 'result_kinds': [list(r) for r in results], 'n_methods': len(meths), **info,
             'digests': {'parse_vec_str': _digest(tree, 'parse_vec_str'), 'format_float': cfg['digest']}}
     return '\n'.join(lines), side
